@@ -97,9 +97,9 @@ func c09ASCII(addr string) string {
 
 func c09Target(hopAddr string) *Target {
 	zones := map[string]mockdns.Zone{
-		"example.invalid.": {MX: []net.MX{{Host: "mx.example.invalid.", Pref: 10}}},
-		"тест.invalid.":    {MX: []net.MX{{Host: "mx.example.invalid.", Pref: 10}}},
-		"second.invalid.":  {MX: []net.MX{{Host: "mx.example.invalid.", Pref: 10}}},
+		"example.invalid.":    {MX: []net.MX{{Host: "mx.example.invalid.", Pref: 10}}},
+		"тест.invalid.":       {MX: []net.MX{{Host: "mx.example.invalid.", Pref: 10}}},
+		"second.invalid.":     {MX: []net.MX{{Host: "mx.example.invalid.", Pref: 10}}},
 		"mx.example.invalid.": {A: []string{"127.0.0.1"}},
 	}
 	return &Target{
@@ -108,9 +108,9 @@ func c09Target(hopAddr string) *Target {
 		dialer: func(ctx context.Context, network, addr string) (net.Conn, error) {
 			return (&net.Dialer{}).DialContext(ctx, "tcp", hopAddr)
 		},
-		Log:    log.Logger{Out: log.NopOutput{}},
-		limits: &limits.Group{},
-		pool: pool.New(pool.Config{MaxKeys: 5000, MaxConnsPerKey: 5, MaxConnLifetimeSec: 150, StaleKeyLifetimeSec: 300}),
+		Log:            log.Logger{Out: log.NopOutput{}},
+		limits:         &limits.Group{},
+		pool:           pool.New(pool.Config{MaxKeys: 5000, MaxConnsPerKey: 5, MaxConnLifetimeSec: 150, StaleKeyLifetimeSec: 300}),
 		connReuseLimit: 10,
 	}
 }
